@@ -2,7 +2,7 @@
 \* module MCApprovalHist generated by checks/c01.py (token tables).
 SPECIFICATION Spec
 INVARIANTS TypeOK PostedIsApprovedByItsBuilder
-PROPERTIES NoResend LeftoverResent BuiltIsFrozen
+PROPERTIES NoResend LeftoverResent BuiltIsFrozen BuiltUnderPublished
 CHECK_DEADLOCK FALSE
 CONSTANTS
   D = 8
@@ -10,3 +10,4 @@ CONSTANTS
   ValOf <- MCValOf
   WeekSet = {1}
   MaxRuns = 2
+  MaxPub = 2
